@@ -9,7 +9,10 @@ META = {
             "emitted as a text that the RFC 8259 reference parser reads, and that denotes the input's value (integers "
             "exactly under Go literal rules, strings as the unquoted Go string read back through JSON, floats under the "
             "shortest-round-trip law of strconv), with bare keys, trailing commas, comments, raw/escaped strings, signs "
-            "and dotted identifier lists covered by induction on the syntax tree; Unmarshal reports trailing tokens. "
+            "and dotted identifier lists covered by induction on the syntax tree; every document of the documented syntax, "
+            "with every surface choice at token level (bare or quoted keys, trailing commas, signs, Go-style literals, "
+            "dotted lists), is accepted and emitted with its documented value; Unmarshal reports trailing tokens; the "
+            "bytes ToJSON returns are owned by the caller (origin of every []byte result extracted from the source). "
             "Tied to the code by a translator of constants and by differential runs (ToJSON/Unmarshal outputs, "
             "strconv.Unquote, json.Marshal of strings, big.Int literals, encoding/json as reference reader) evaluated in Coq.",
     "note": "Trusted: Coq kernel + vm_compute; translator gen/jsonx.go; harness + shim; strconv/encoding/json/math/big "
@@ -35,6 +38,17 @@ def impl_oracle(c):
     if kind:
         return kind, "%s: %s" % (c["op"], o["crash"][:160])
     op = c["op"]
+    if op == "file":
+        return J.file_oracle(c)
+    if op in ("script", "rstream", "rseries", "reuse", "targets", "lexfn"):
+        return J.usage_oracle(c)
+    if op in ("tojson", "unmarshal") and not o.get("ok") and c.get("want") and "E(" not in c["want"] \
+            and c["stream"] in ("numlex", "words", "escapes", "big"):
+        return "rejected", "a document of the documented syntax denoting %s was rejected (%s)" % (
+            c["want"], o.get("errs") or o.get("first") or o.get("res"))
+    if op == "tojson" and c.get("reject") and o.get("ok"):
+        return "accepted-invalid", "accepted %s, which has no value in the documented syntax; emitted %s" % (
+            c.get("src"), o.get("text"))
     if op in ("tojson", "unmarshal") and o.get("ok"):
         if o.get("valid") is False:
             return "invalid-json", "accepted, but the emitted text %s is not valid JSON" % o.get("text")
@@ -93,13 +107,18 @@ def run(ck):
     cases = J.run_harness(ck, "c09", n)
     accepted = 0
     shrunk = set()
-    for c in cases:
+    for k, c in enumerate(cases):
+        if c["op"] == "hold":
+            ck.coverage["results_held_across_later_cases"] = ck.coverage.get("results_held_across_later_cases", 0) + (c["obs"].get("n") or 0)
+            if not J.crash_kind(c["obs"]):
+                J.hold_oracle(ck, cases, k)
+                continue
         o = c["obs"]
         trivial = len(bytes.fromhex(c["in"])) == 0 or (c["op"] in ("tojson", "unmarshal") and not o.get("ok")
                                                        and not c.get("reject"))
         if c["op"] in ("tojson", "unmarshal") and o.get("ok"):
             accepted += 1
-        ck.count(c["stream"] + ":" + c["op"], key=(c["op"], c["in"]), trivial=trivial)
+        ck.count(c["stream"] + ":" + c["op"], key=(c["op"], c["in"], c.get("script")), trivial=trivial)
         bad = impl_oracle(c)
         if bad:
             key = "impl:%s:%s" % (bad[0], c["stream"])
@@ -141,7 +160,16 @@ def run(ck):
              "fields matched case-insensitively, interface{}) with seeded defects (unknown field, type mismatch, integer "
              "overflow, unknown type) decoded by DecodeSeries into the real struct types and compared with "
              "reflect.DeepEqual; documents with trailing content; standard-library "
-             "correspondence inputs. A case is trivial if its input is empty or it was rejected; distinct = distinct "
+             "correspondence inputs. Usage patterns (round 3): every string up to length 3 over 0179xeE.-+af and "
+             "up to 4 over 01x.e- as a document (a number literal of the documented syntax must be emitted with its "
+             "value, a number token without value rejected); keyword prefixes and near-keywords as value, bare key, "
+             "quoted key, list element, dotted list and type name; digit counts and value bounds of every escape "
+             "kind (octal, \\x, \\u, \\U, surrogates) against strconv.Unquote; tokens across byte 4096 and longer "
+             "than bufio's buffer, nesting 1000 deep; ONE Decoder driven by a script of More / Decode / DecodeSeries "
+             "calls with intended values; jsonx.Unmarshal into 13 target types against json.Unmarshal of ToJSON's "
+             "output, and into nil / non-pointer / nil-pointer targets; documents through the entry points one after "
+             "the other and from 8 goroutines; the file-level entry points (ReadFile, ReadFileMaybeJSON, "
+             "ReadSeriesFile) on documents with trailing content. A case is trivial if its input is empty or it was rejected; distinct = distinct "
              "(operation, input bytes).",
         assumptions=["strconv.ParseFloat / json.Marshal(float64) satisfy the shortest-round-trip law",
                      "a Go string that is not valid UTF-8 denotes its U+FFFD-sanitised form"])
